@@ -108,7 +108,7 @@ CHECKS = {
         category="model_checking",
         technique="explicit-state BFS over the real Mempool (history replay under a paused clock) with structural and API-level oracles",
         text=("BFS over every sequence of <= 4 (thorough 5) events from inserts of 10 real signed transactions (2 accounts, nonces "
-              "0..2, cheap / expensive / sudo-group; current and, in thorough, stale chain views), remove_tx_invalid, chain nonce "
+              "0..2, cheap / expensive / sudo-group; each with the current chain view and with the view of before the last chain change), remove_tx_invalid, chain nonce "
               "advances with inclusion results, balance changes, fee recost, run_maintenance and TTL expiry, for parked limits "
               "1, 2, 100; each state is replayed on a fresh real Mempool under a paused tokio clock. Oracle on the inner containers "
               "and public API: every tracked transaction in exactly one queue, every accepted transaction has a status (never "
